@@ -34,15 +34,26 @@ theorem optRR_WF (p : Packet) (hopt : p.header.WF) : ∀ r ∈ p.header.optRR.to
 theorem optRR_length (h : Header) : h.optRR.toList.length = (if h.opt.isSome then 1 else 0) := by
   cases ho : h.opt <;> simp [Header.optRR, ho]
 
-/-- the output of either builder, walked by the independent envelope walker -/
-theorem buildG_framed (c : Bool) (p : Packet) (hwf : p.WF) :
-    ∃ b w, p.buildG c = .ok b ∧ Spec.walk b = some w ∧ w.stop = b.length ∧
-      w.questions.length = p.questions.length ∧ w.answers.length = p.answers.length ∧
-      w.nameServers.length = p.nameServers.length ∧
-      w.additional.length = p.additional.length + (if p.header.opt.isSome then 1 else 0) := by
+/-- The sections of a built message: the bytes each section writer contributes, the suffix table
+it leaves, and its specification (Lemmas/RoundTripD.lean) relative to everything written before. -/
+theorem buildG_sections (c : Bool) (p : Packet) (hwf : p.WF) :
+    ∃ (qs : Bytes × Table) (an : Bytes) (t1 : Table) (ns : Bytes) (t2 : Table) (ob ar : Bytes)
+      (t3 : Table),
+      writeQuestionsG c p.questions 12 [] = qs ∧
+      writeRRsG c p.answers (12 + qs.1.length) qs.2 = .ok (an, t1) ∧
+      writeRRsG c p.nameServers (12 + qs.1.length + an.length) t1 = .ok (ns, t2) ∧
+      writeRRs p.header.optRR.toList = .ok ob ∧
+      writeRRsG c p.additional (12 + qs.1.length + an.length + ns.length + ob.length) t2
+        = .ok (ar, t3) ∧
+      p.buildG c = .ok (p.writeHeader ++ (qs.1 ++ (an ++ (ns ++ (ob ++ ar))))) ∧
+      p.writeHeader.length = 12 ∧
+      QsSpec c p.writeHeader p.questions qs.1 qs.2 ∧
+      RRsSpec c (p.writeHeader ++ qs.1) p.answers an t1 ∧
+      RRsSpec c (p.writeHeader ++ qs.1 ++ an) p.nameServers ns t2 ∧
+      RRsSpec false (p.writeHeader ++ qs.1 ++ an ++ ns) p.header.optRR.toList ob t2 ∧
+      RRsSpec c (p.writeHeader ++ qs.1 ++ an ++ ns ++ ob) p.additional ar t3 := by
   obtain ⟨hH, hqd, han, hns, har, hqs, hans, hnss, hars, hnoopt⟩ := hwf
   have hoptwf := optRR_WF p hH
-  obtain ⟨hid, hfl, hopt⟩ := hH
   have hhl : p.writeHeader.length = 12 := by simp [Packet.writeHeader, Header.write]
   have hQ := writeQuestionsG_spec c p.questions 12 [] p.writeHeader hqs hhl (TInv.nil _)
   generalize hqsb : writeQuestionsG c p.questions 12 [] = qs at hQ
@@ -66,6 +77,19 @@ theorem buildG_framed (c : Bool) (p : Packet) (hwf : p.WF) :
   have hbuild : p.buildG c = .ok (p.writeHeader ++ (qs.1 ++ (an ++ (ns ++ (ob ++ ar))))) := by
     unfold Packet.buildG
     simp only [hhl, hqsb, hwan, Out.bind_ok, hwns, hwo1, hwar, Out.pure_eq]
+  exact ⟨qs, an, t1, ns, t2', ob, ar, t3, rfl, hwan, hwns, hwo1, hwar, hbuild, hhl, hQ, hAN, hNS,
+    hO, hAR⟩
+
+/-- the output of either builder, walked by the independent envelope walker -/
+theorem buildG_framed (c : Bool) (p : Packet) (hwf : p.WF) :
+    ∃ b w, p.buildG c = .ok b ∧ Spec.walk b = some w ∧ w.stop = b.length ∧
+      w.questions.length = p.questions.length ∧ w.answers.length = p.answers.length ∧
+      w.nameServers.length = p.nameServers.length ∧
+      w.additional.length = p.additional.length + (if p.header.opt.isSome then 1 else 0) := by
+  obtain ⟨qs, an, t1, ns, t2, ob, ar, t3, _, _, _, _, _, hbuild, hhl, hQ, hAN, hNS, hO, hAR⟩ :=
+    buildG_sections c p hwf
+  obtain ⟨hH, hqd, han, hns, har, _⟩ := hwf
+  obtain ⟨hid, hfl, _⟩ := hH
   have hcnt : p.additional.length % 65536 + (if p.header.opt.isSome then 1 else 0)
       = p.header.optRR.toList.length + p.additional.length := by
     have : p.additional.length % 65536 = p.additional.length := Nat.mod_eq_of_lt (by omega)
